@@ -89,7 +89,15 @@ def run(E: Engine, rep: Report, tier: str) -> dict:
     rep.check(ok and seen == {"own", "in_own", "in_default"}, "TT", "Observable.__call__|stores-iff-own-times-else-default-times", "stores iff (own and t in own) or (not own and t in default) -- 6 rows",
               f"the storing condition `{sh(cond, 200)}` deviates from the documented behaviour: {bad_rows}", E.where(call, st[-1].node))
     rep.check(len(tols) == 1, "TT", "Observable.__call__|same-tolerance", f"tolerance {[sh(t, 60) for t in tols]}", f"different tolerances {[sh(t, 60) for t in tols]} for own and default times", E.where(call, st[-1].node))
-    rep.floor("TT", 2)
+    # the tolerance is at most half a time step (1/total_duration is one ns in relative time): with more, two
+    # consecutive solver times can both match one requested evaluation time, and the result is stored twice
+    for tol in tols:
+        m_ = is_(tol, "Q_c / result.total_duration if result.total_duration else Q_e")
+        c_ = m_["Q_c"] if m_ else None
+        ok_c = c_ is not None and c_[0] == "const" and isinstance(c_[1], (int, float)) and 0 < c_[1] <= 0.5
+        rep.check(ok_c, "TT", "Observable.__call__|tolerance<=half-a-step", "time tolerance = c / total_duration with 0 < c <= 0.5",
+                  f"the time-matching tolerance is `{sh(tol, 100)}`: it must be at most half a nanosecond in relative time (c / total_duration with c <= 0.5), otherwise two consecutive solver times match the same requested evaluation time and one requested time gets two stored values", E.where(call, st[-1].node))
+    rep.floor("TT", 3)
 
     # -------------------------------------------------------------- GUARD
     run_ = E.fn("pulser_simulation.qutip_backend.QutipBackendV2.run")
@@ -153,6 +161,18 @@ def run(E: Engine, rep: Report, tier: str) -> dict:
     retd = Sp.ret
     writes = [l for l in Sp.log if l.kind in ("store", "aug") and l.target is not None and l.target[0] == "idx" and l.loops and sym.contains(retd, l.target[1])]
     rep.check(bool(writes) and all(l.kind == "aug" and l.op == "Add" for l in writes), "GUARD", "QutipState.bitstring_probabilities|accumulates", "probabilities of basis states reading as the same bitstring are summed (+=)", "bitstring probabilities are assigned instead of accumulated: with 3+ levels several basis states map to one bitstring and all but one are lost", E.where(bp))
+    # Born rule per representation: a ket's probabilities are |amplitude|^2, a density matrix's are its diagonal
+    pr = E.fn("pulser_simulation.qutip_state.QutipState.probabilities")
+    rp = S(E, pr).ret
+    if rp is None:
+        raise AnalysisError("anchor: QutipState.probabilities returns nothing")
+    squares = [x for x in sym.subterms(rp) if x[0] == "bin" and x[1] == "Pow" and x[3] == ("const", 2)]
+    sq_diag = [x for x in squares if any(t[0] == "call" and t[1][0] == "attr" and t[1][2] == "diag" for t in sym.subterms(x[2]))]
+    sq_full = [x for x in squares if any(t[0] == "call" and t[1][0] == "attr" and t[1][2] in ("full", "data_as") for t in sym.subterms(x[2]))]
+    has_diag = any(t[0] == "call" and t[1][0] == "attr" and t[1][2] == "diag" for t in sym.subterms(rp))
+    rep.check(has_diag and not sq_diag, "GUARD", "QutipState.probabilities|density-matrix-diagonal-not-squared", "mixed state: probabilities are the diagonal populations themselves",
+              f"the populations of a density matrix are squared (`{sh(sq_diag[0], 100) if sq_diag else 'diag() no longer read'}`): rho_kk already is the probability, squaring skews every non-uniform mixed state", E.where(pr))
+    rep.check(bool(sq_full), "GUARD", "QutipState.probabilities|ket-amplitudes-squared", "pure state: probabilities are |amplitude|^2", "the amplitudes of a ket are no longer squared in probabilities()", E.where(pr))
     # operator application on a density matrix is A rho A^dagger
     ap = E.fn("pulser_simulation.qutip_op.QutipOperator.apply_to")
     ra = S(E, ap).ret
@@ -161,6 +181,18 @@ def run(E: Engine, rep: Report, tier: str) -> dict:
     want = sym.mk_ifexp(("attr", st_, "isoper"), ("mul", op_, st_, dag), ("mul", op_, st_))
     rep.check(sym.contains(ra, want), "GUARD", "QutipOperator.apply_to|A-rho-A-dagger", "ket: A|psi>; density matrix: A rho A^dagger", f"applying an operator to a density matrix is no longer A rho A^dagger (the right factor must be the adjoint): {sh(ra, 200)}", E.where(ap))
     ex = E.fn("pulser_simulation.qutip_op.QutipOperator.expect")
-    rep.check(has(S(E, ex).ret, "qutip.expect(self._operator, state._state)") is not None, "GUARD", "QutipOperator.expect|qutip.expect(op,state)", "expectation = qutip.expect(operator, state)", "QutipOperator.expect changed", E.where(ex))
-    rep.floor("GUARD", 11)
+    rex = S(E, ex).ret
+    rep.check(has(rex, "qutip.expect(self._operator, state._state)") is not None, "GUARD", "QutipOperator.expect|qutip.expect(op,state)", "expectation = qutip.expect(operator, state)", "QutipOperator.expect changed", E.where(ex))
+    # ... returned whole: operators need not be Hermitian, so the expectation value is complex
+    core = unobj(rex)
+    while core[0] == "call" and core[1] in (("name", "complex"), ("attr", ("name", "np"), "complex128")) and len(core[2]) == 1:
+        core = unobj(core[2][0])
+    lossy = [t for t in sym.subterms(rex) if (t[0] == "attr" and t[2] in ("real", "imag")) or (t[0] == "call" and t[1] in (("name", "abs"), ("name", "float"), ("attr", ("name", "np"), "real"), ("attr", ("name", "np"), "abs"), ("attr", ("name", "np"), "imag")))]
+    if is_(core, "qutip.expect(self._operator, state._state)") is not None:
+        rep.ok("GUARD", "QutipOperator.expect|complex-value-returned-whole", "the value of qutip.expect is returned unchanged", E.where(ex))
+    elif lossy:
+        rep.violation("GUARD", "QutipOperator.expect|complex-value-returned-whole", f"QutipOperator.expect returns `{sh(rex, 100)}`: a real/imaginary/absolute part of the expectation value. Operators built from representations, sums, scalings and products need not be Hermitian, so <A> is complex and expect() is no longer linear", E.where(ex))
+    else:
+        rep.excepted("GUARD", "QutipOperator.expect|complex-value-returned-whole", f"returned value `{sh(rex, 80)}` wraps qutip.expect in a way the rule does not classify: not decided", E.where(ex))
+    rep.floor("GUARD", 14)
     return {"atoms": sorted(seen)}
